@@ -263,6 +263,51 @@ theorem C20_checker_model_passes :
   exact (checkGreedyOut_iff _ _ _ _ _).2 ⟨h1, fun i hi => (h2 i hi).1, h3, h4, h5, h6,
     by rw [h7]; linarith, by rw [h7]; linarith⟩
 
+/-! ### histories: ONE selector object serving several `select()` calls -/
+
+/-- **Every call of a history on one `TopKSelector(k)` object returns the `min k n` lowest-loss members
+of the candidates given to THAT call** — whatever the object was asked before (other candidate lists of
+smaller, equal or larger length, other targets, i.e. other `losses`): as many answers as calls; the
+answer to a call is `topK` of that call alone and meets `TopKSpec` for that call's losses; the answers
+to a continuation do not depend on the calls made before it; and the verified checker the driver runs
+on the real object's answers (`checkTopKHistory`) decides exactly this clause and is passed by the model. -/
+theorem C20_topk_history (k : Nat) (calls : List TopKCall)
+    (h : ∀ c ∈ calls, OrderOK c.losses.length (fun i => c.losses.getD i 0) c.order) :
+    (topKHistory k calls).length = calls.length ∧
+    (∀ p ∈ calls.zip (topKHistory k calls), p.2 = topK p.1.order k ∧
+      TopKSpec p.1.losses.length (fun i => p.1.losses.getD i 0) k p.2.1 p.2.2) ∧
+    (∀ pre post, topKHistory k (pre ++ post) = topKHistory k pre ++ topKHistory k post) ∧
+    (∀ lossess outs, checkTopKHistory k lossess outs = true ↔ TopKHistorySpec k lossess outs) ∧
+    checkTopKHistory k (calls.map (·.losses)) (topKHistory k calls) = true := by
+  refine ⟨topKHistory_length k calls, fun p hp => ?_, topKHistory_append k, checkTopKHistory_iff k,
+    (checkTopKHistory_iff k _ _).2 (topKHistory_spec k calls h)⟩
+  have e := topKHistory_zip k calls p hp
+  exact ⟨e, by rw [e]; exact topK_spec (h p.1 (List.of_mem_zip hp).1) k⟩
+
+/-- what `C20_greedy_wf` says of one answer of a `GreedySelector(o)` to a call with `n` candidates -/
+def GreedyAnswerOK (o : Opts) (n : Nat) (r : Res) : Prop :=
+  r = .outOfFuel ∨
+  ∃ sel, r = .ok sel ∧
+    (output n sel).1.Nodup ∧ (∀ i ∈ (output n sel).1, i < n ∧ i ∈ sel) ∧ (output n sel).1 ≠ [] ∧
+    (output n sel).1.length ≤ max o.k (min o.kInit n) ∧
+    (output n sel).2.length = (output n sel).1.length ∧
+    (∀ w ∈ (output n sel).2, 0 < w) ∧ (output n sel).2.sum = 1
+
+/-- **Every call of a history on one `GreedySelector(o)` object is well-formed for the candidates of THAT
+call** (`C20_greedy_wf` per call: no error branch; valid, distinct indices `< n` of this call, at most
+`max k (min k_init n)`, positive weights summing to one), the answer to a call is `greedy` of that call
+alone, and the answers to a continuation do not depend on the calls made before it. -/
+theorem C20_greedy_history (o : Opts) (hk : 0 < o.kInit) (calls : List GreedyCall)
+    (h : ∀ c ∈ calls, 0 < c.n ∧ ∃ losses, OrderOK c.n losses c.order) :
+    (greedyHistory o calls).length = calls.length ∧
+    (∀ p ∈ calls.zip (greedyHistory o calls),
+      p.2 = greedy o p.1.n p.1.order p.1.L0 p.1.L p.1.bags p.1.fuel ∧ GreedyAnswerOK o p.1.n p.2) ∧
+    (∀ pre post, greedyHistory o (pre ++ post) = greedyHistory o pre ++ greedyHistory o post) := by
+  refine ⟨greedyHistory_length o calls, fun p hp => ?_, greedyHistory_append o⟩
+  have e := greedyHistory_zip o calls p hp
+  obtain ⟨hn, losses, hok⟩ := h p.1 (List.of_mem_zip hp).1
+  exact ⟨e, by rw [e]; exact C20_greedy_wf o hok hn hk p.1.L0 p.1.L p.1.bags p.1.fuel⟩
+
 /-! ### non-vacuity and regression witnesses -/
 
 def oDefault : Opts :=
@@ -297,5 +342,26 @@ example : checkGreedyOut 0 2 3 [0, 0] [1 / 2, 1 / 2] = false := by decide +kerne
 open DH.Aggregate in
 example : predictModel meanSym [1, 2, 4] [(2, some 5), (0, some 1), (1, some 3)]
     = meanSym.agg [1, 2, 4] [some 1, some 3, some 5] := by decide +kernel
+
+/-- a history on one `TopKSelector(2)`: three candidates, then the same number of candidates with the
+losses reversed (e.g. another target), then a longer list — every answer is about its own call; an
+object answering the second call from the losses of the first (`[1, 2]`) fails the checker -/
+def histCalls : List TopKCall :=
+  [⟨[3, 1, 2], [1, 2, 0]⟩, ⟨[2, 1, 3], [1, 0, 2]⟩, ⟨[5, 4, 3, 2, 1], [4, 3, 2, 1, 0]⟩]
+example : ∀ c ∈ histCalls, OrderOK c.losses.length (fun i => c.losses.getD i 0) c.order := by
+  intro c hc
+  simp only [histCalls, List.mem_cons, List.not_mem_nil, or_false] at hc
+  rcases hc with rfl | rfl | rfl <;> exact ⟨by decide, by simp; norm_num⟩
+example : topKHistory 2 histCalls = [([1, 2], [1, 1]), ([1, 0], [1, 1]), ([4, 3], [1, 1])] := by decide +kernel
+example : checkTopKHistory 2 (histCalls.map (·.losses)) (topKHistory 2 histCalls) = true := by decide +kernel
+example : checkTopKHistory 2 (histCalls.map (·.losses)) [([1, 2], [1, 1]), ([1, 2], [1, 1]), ([4, 3], [1, 1])] = false := by
+  decide +kernel
+/-- a history on one `GreedySelector`: one candidate (the online start), then two -/
+example : greedyHistory oDefault [⟨1, [0], fun _ => 1, fun _ => 1, fun _ => [], 10⟩,
+    ⟨2, [1, 0], fun _ => 1, fun uc => if uc.length = 2 then 0 else 1, fun _ => [], 10⟩] = [.ok [0], .ok [1, 0, 0]] := by
+  decide +kernel
+example : GreedyAnswerOK oDefault 2 (.ok [1, 0, 0]) :=
+  Or.inr ⟨[1, 0, 0], rfl, by decide +kernel, by decide +kernel, by decide +kernel, by decide +kernel, by decide +kernel,
+    by decide +kernel, by decide +kernel⟩
 
 end DH.Select
